@@ -66,6 +66,8 @@ Record rbranch : Type := RBranch {
 Record ionq_tables : Type := {
   iq_names : list (string * string);      (* GATE_JSON_IONQ *)
   iq_wbranches : list wbranch;            (* if/elif chain of translate_c_to_json_ionq *)
+  iq_w_need_control : list string;        (* kinds of the branch  elif gate.name in {..} and not gate.control: raise ValueError
+                                             (the translator checks that no earlier branch holds one of them) *)
   iq_rename_from : string;                (* if name == "Z" and parameter is not None: name = "PHASE" *)
   iq_rename_to : string;
   iq_rbranches : list rbranch             (* if/elif chain of translate_c_from_json_ionq *)
@@ -77,10 +79,16 @@ Inductive pq_shape : Type :=
 | PQS2.       (* W: "N | ( Qureg[c0], Qureg[t0] )"   R: Gate(map[N], q[1], control=q[0]) *)
 Definition shape_eqb (a b : pq_shape) : bool :=
   match a, b with PQS1, PQS1 | PQS1p, PQS1p | PQS2, PQS2 => true | _, _ => false end.
+(* Gate.__repr__ : which of the two recognised conditions guards the printing of target / control *)
+Record repr_tables : Type := {
+  rp_when_not_none : bool           (* true: "attr is not None";  false: "attr or isinstance(attr, int)" (truthy) *)
+}.
 Record pq_tables : Type := {
   pq_names : list (string * string);                 (* GATE_PROJECTQ *)
   pq_wbranches : list (list string * pq_shape);
   pq_rbranches : list (list string * pq_shape);
+  pq_restores_width : bool;         (* the reader computes n_allocated from the Allocate instructions and returns a circuit
+                                       of that width when it is larger than what the gates need *)
   pq_w_single_ctrl : list string;   (* writer kinds whose branch starts with  if len(gate.control) != 1: raise ValueError *)
   pq_ignored : list string          (* literals of the two re.sub(...) that delete whole instructions *)
 }.
@@ -142,10 +150,13 @@ Section Formats.
 
   Variable I : ionq_tables.
 
+  (* Python truthiness of gate.control: None and [] are falsy *)
+  Definition truthy_list (o : option (list Z)) : bool := match o with Some (_ :: _) => true | _ => false end.
   Definition iq_accepts (n : string) : bool := is_some (find_wbranch n (iq_wbranches I)).
 
   (* one iteration of the loop of translate_c_to_json_ionq *)
   Definition iq_write_gate (g : pgate) : res irec :=
+    if smem (pname g) (iq_w_need_control I) && negb (truthy_list (pcontrol g)) then Err ValueError else
     match find_wbranch (pname g) (iq_wbranches I) with
     | None => Err ValueError
     | Some b =>
@@ -202,6 +213,7 @@ Section Formats.
         && arity_eqb (arity T final) (arity T n)
         && (starts_with_C final || negb (wb_controls b))
         && (wb_controls b || negb (starts_with_C n))
+        && (wb_controls b || negb (smem n (iq_w_need_control I)))
       end
     end.
   Definition iq_all_names : list string := flat_map wb_names (iq_wbranches I).
@@ -214,7 +226,7 @@ Section Formats.
     match find_wbranch (pname g) (iq_wbranches I) with
     | None => False
     | Some b => (wb_rotation b = false -> pparam g = PNone)         (* no rotation key: no parameter *)
-                /\ (wb_controls b = true -> pcontrol g <> None)      (* a controlled kind has controls *)
+                /\ (wb_controls b = true -> truthy_list (pcontrol g) = true)   (* a controlled kind has a control *)
     end.
 
   (* ================================================================ ProjectQ command text *)
@@ -279,10 +291,19 @@ Section Formats.
                 mk_gate T n [IInt q1] (Some [IInt q0]) PNone false
       end
     end.
-  (* abs_circ = Circuit(); add_gate for every remaining instruction: the width comes from the gates *)
+  (* n_allocated = max([i + 1 for every "Allocate | Qureg[i]"], default=0): in the abstract syntax an
+     instruction with head exactly "Allocate", no parenthesised text and one Qureg argument *)
+  Definition pq_alloc_index (l : pqline) : Z :=
+    match ql_param l, ql_qubits l with
+    | None, [q] => if String.eqb (ql_name l) "Allocate" then (q + 1)%Z else 0%Z
+    | _, _ => 0%Z
+    end.
+  Definition pq_n_allocated (ls : list pqline) : Z := fold_right (fun l m => Z.max (pq_alloc_index l) m) 0%Z ls.
+  (* abs_circ = Circuit(); add_gate for every remaining instruction: the width comes from the gates; when
+     the reader restores the width: Circuit(abs_circ._gates, n_qubits=n_allocated) if n_allocated is larger *)
   Definition pq_read (ls : list pqline) : res fcirc :=
     do gs <- mapM pq_read_line (filter (fun l => negb (pq_is_ignored l)) ls);
-    Ok (FCirc gs (gates_width gs)).
+    Ok (FCirc gs (if pq_restores_width P then Z.max (pq_n_allocated ls) (gates_width gs) else gates_width gs)).
 
   Definition pq_values_distinct : bool := snodup (map snd (pq_names P)).
   Definition pq_name_ok (n : string) (sh : pq_shape) : bool :=
@@ -321,17 +342,18 @@ Section Formats.
     end.
 
   (* ================================================================ Gate.__repr__ *)
-  (* the keyword arguments printed by __repr__: target / control "when truthy or an int" (they are
-     lists in a constructed Gate, so: when non-empty), parameter unless it is "", is_variational only
-     when True; name always *)
+  (* the keyword arguments printed by __repr__: target / control either "when truthy or an int" (they are
+     lists in a constructed Gate, so: when non-empty) or "when not None", according to the regenerated
+     [repr_tables]; parameter unless it is "", is_variational only when True; name always *)
+  Variable RP : repr_tables.
   Record repr_fields : Type := ReprFields {
     rf_name : string; rf_target : option (list Z); rf_control : option (list Z);
     rf_param : option param; rf_var : option bool }.
   Definition nonempty (l : list Z) : bool := match l with [] => false | _ => true end.
   Definition gate_repr (g : pgate) : repr_fields :=
     ReprFields (pname g)
-               (if nonempty (ptarget g) then Some (ptarget g) else None)
-               (match pcontrol g with Some c => if nonempty c then Some c else None | None => None end)
+               (if rp_when_not_none RP || nonempty (ptarget g) then Some (ptarget g) else None)
+               (match pcontrol g with Some c => if rp_when_not_none RP || nonempty c then Some c else None | None => None end)
                (match pparam g with PNone => None | p => Some p end)
                (if pvar g then Some true else None).
   (* eval of the printed call: Gate(name=.., target=.., control=.., parameter=.., is_variational=..) with
